@@ -206,6 +206,9 @@ type Harness struct {
 
 var registry = map[string]Harness{}
 
+// Lookup returns the harness registered under id (zero value if none).
+func Lookup(id string) Harness { return registry[id] }
+
 // Register adds a harness under a property id.
 func Register(id string, h Harness) { registry[id] = h }
 
